@@ -222,6 +222,13 @@ def build_poly_domain(n, box):
     hi = np.array([float(F(x)) for x in box['hi']])
     y = cl.Variable(shape=(n,), name='poly_box_y_%d' % build_poly_domain.k)
     build_poly_domain.k += 1
+    free = box.get('free', [])
+    if free:
+        # some coordinates occur in no constraint at all
+        idx = [i for i in range(n) if i not in free]
+        return PolyDomain(n, logspace_cons=[y[i] >= lo[i] for i in idx] + [y[i] <= hi[i] for i in idx],
+                          gts=[(lambda z, i=i: abs(z[i]) - math.exp(lo[i])) for i in idx] + [(lambda z, i=i: math.exp(hi[i]) - abs(z[i])) for i in idx],
+                          eqs=[])
     return PolyDomain(n, logspace_cons=[y >= lo, y <= hi],
                       gts=[(lambda z, i=i: abs(z[i]) - math.exp(lo[i])) for i in range(n)] + [(lambda z, i=i: math.exp(hi[i]) - abs(z[i])) for i in range(n)],
                       eqs=[])
@@ -361,6 +368,8 @@ def gen_relax_case(rng):
     f = gen_poly(rng)
     n = f['n']
     box = rm.gen_box(rng, n) if rng.random() < 0.35 else None
+    if box is not None and n >= 2 and rng.random() < 0.4:
+        box['free'] = [rng.randrange(n)]
     pe = rng.choice([0, 0, 1, 1, 2])
     se = rng.choice([0, 0, 1])
     return {'f': f, 'box': box, 'poly_ell': pe, 'sigrep_ell': se}
@@ -526,6 +535,8 @@ def real_points(rng, n, box, count):
         for i in range(n):
             if box is None:
                 mag = rng.choice([0.0, 0.0, 0.25, 0.5, 0.75, 1.0, 1.25, 1.5, 2.0, 3.0])
+            elif i in box.get('free', []):
+                mag = rng.choice([0.25, 0.5, 0.75, 1.0, 1.25, 1.5, 2.0, 3.0])
             else:
                 lo, hi = float(F(box['lo'][i])), float(F(box['hi'][i]))
                 mag = math.exp(lo + (hi - lo) * rng.randint(0, 8) / 8.0)
